@@ -1,7 +1,189 @@
 import Driver.Proto
-/- driver commands of area `rewrite` (stub until the area is built) -/
-namespace Driver.Rewrite
+import MesonModel.Rewrite.Splice
+import MesonModel.Rewrite.StrLit
+import MesonModel.Rewrite.Compare
+import MesonModel.Rewrite.Parse
+/-
+driver commands of area `rewrite` (C17).
 
-def handle (cmd : String) (fs : List String) : String := "bad-op"
+Tree field: tokens separated by `;`, token parts by `:`, prefix order. Strings inside a token are
+space-separated decimal code points (`decodeStr`).
+  b:L:0|1   i:L:<name>   n:L:<dec>   s:L:<ml><fs>:<value>   A:L:AL:<n> items…   D:L:AL:<n> items…
+  O:L l r   N:L l r   C:L:<ctype> l r   R:L:<operation>:<optext> l r   !:L e   -:L e   X:L o i
+  M:L:<name>:AL:<n> obj items…   F:L:<name>:AL:<n> items…   T:L c t f   P:L e   =:L:<name> e
+  +:L:<name> e   E
+items: `p` e  |  `k` key value
+-/
+namespace Driver.Rewrite
+open MesonModel.Rewrite Driver
+
+abbrev Tok := List String
+
+def tokNat (s : String) : Nat := s.toNat?.getD 0
+
+mutual
+def decE : Nat → List Tok → Option (Expr × List Tok)
+  | 0, _ => none
+  | _, [] => none
+  | f + 1, t :: ts =>
+    match t with
+    | ["b", l, v] => some (.bool (tokNat l) (v == "1"), ts)
+    | ["i", l, n] => some (.id (tokNat l) (decodeStr n), ts)
+    | ["n", l, v] => some (.num (tokNat l) (tokNat v), ts)
+    | ["s", l, fl, v] => some (.str (tokNat l) (decodeStr v) (fl == "10" || fl == "11") (fl == "01" || fl == "11"), ts)
+    | ["A", l, al, n] => (decI f (tokNat n) ts).map (fun (i, r) => (.arr (tokNat l) (tokNat al) i, r))
+    | ["D", l, al, n] => (decI f (tokNat n) ts).map (fun (i, r) => (.dict (tokNat l) (tokNat al) i, r))
+    | ["O", l] => do let (a, r) ← decE f ts; let (b, r) ← decE f r; pure (.or (tokNat l) a b, r)
+    | ["N", l] => do let (a, r) ← decE f ts; let (b, r) ← decE f r; pure (.and (tokNat l) a b, r)
+    | ["C", l, c] => do let (a, r) ← decE f ts; let (b, r) ← decE f r; pure (.cmp (tokNat l) (decodeStr c) a b, r)
+    | ["R", l, o, ot] => do
+      let (a, r) ← decE f ts; let (b, r) ← decE f r
+      pure (.arith (tokNat l) (decodeStr o) (decodeStr ot) a b, r)
+    | ["!", l] => do let (a, r) ← decE f ts; pure (.not (tokNat l) a, r)
+    | ["-", l] => do let (a, r) ← decE f ts; pure (.uminus (tokNat l) a, r)
+    | ["X", l] => do let (a, r) ← decE f ts; let (b, r) ← decE f r; pure (.index (tokNat l) a b, r)
+    | ["M", l, n, al, cnt] => do
+      let (o, r) ← decE f ts
+      let (i, r) ← decI f (tokNat cnt) r
+      pure (.method (tokNat l) o (decodeStr n) (tokNat al) i, r)
+    | ["F", l, n, al, cnt] => do
+      let (i, r) ← decI f (tokNat cnt) ts
+      pure (.call (tokNat l) (decodeStr n) (tokNat al) i, r)
+    | ["T", l] => do
+      let (a, r) ← decE f ts; let (b, r) ← decE f r; let (c, r) ← decE f r
+      pure (.ternary (tokNat l) a b c, r)
+    | ["P", l] => do let (a, r) ← decE f ts; pure (.paren (tokNat l) a, r)
+    | ["=", l, n] => do let (a, r) ← decE f ts; pure (.assign (tokNat l) (decodeStr n) a, r)
+    | ["+", l, n] => do let (a, r) ← decE f ts; pure (.plusassign (tokNat l) (decodeStr n) a, r)
+    | ["E"] => some (.empty, ts)
+    | _ => none
+def decI : Nat → Nat → List Tok → Option (Items × List Tok)
+  | 0, _, _ => none
+  | _, 0, ts => some (.nil, ts)
+  | f + 1, n + 1, t :: ts =>
+    match t with
+    | ["p"] => do
+      let (e, r) ← decE f ts
+      let (rest, r) ← decI f n r
+      pure (.pos e rest, r)
+    | ["k"] => do
+      let (k, r) ← decE f ts
+      let (v, r) ← decE f r
+      let (rest, r) ← decI f n r
+      pure (.kw k v rest, r)
+    | _ => none
+  | _, _, [] => none
+end
+
+def decodeTree (field : String) : Option Expr :=
+  let toks := (field.splitOn ";").map (fun t => t.splitOn ":")
+  match decE (toks.length + 1) toks with
+  | some (e, []) => some e
+  | _ => none
+
+mutual
+def encE : Expr → List String
+  | .bool l v => [s!"b:{l}:{boolStr v}"]
+  | .id l n => [s!"i:{l}:{encodeStr n}"]
+  | .num l v => [s!"n:{l}:{v}"]
+  | .str l v ml fs => [s!"s:{l}:{boolStr ml}{boolStr fs}:{encodeStr v}"]
+  | .arr l al i => s!"A:{l}:{al}:{i.length}" :: encI i
+  | .dict l al i => s!"D:{l}:{al}:{i.length}" :: encI i
+  | .or l a b => s!"O:{l}" :: (encE a ++ encE b)
+  | .and l a b => s!"N:{l}" :: (encE a ++ encE b)
+  | .cmp l c a b => s!"C:{l}:{encodeStr c}" :: (encE a ++ encE b)
+  | .arith l o ot a b => s!"R:{l}:{encodeStr o}:{encodeStr ot}" :: (encE a ++ encE b)
+  | .not l e => s!"!:{l}" :: encE e
+  | .uminus l e => s!"-:{l}" :: encE e
+  | .index l o i => s!"X:{l}" :: (encE o ++ encE i)
+  | .method l o n al i => s!"M:{l}:{encodeStr n}:{al}:{i.length}" :: (encE o ++ encI i)
+  | .call l n al i => s!"F:{l}:{encodeStr n}:{al}:{i.length}" :: encI i
+  | .ternary l c t f => s!"T:{l}" :: (encE c ++ encE t ++ encE f)
+  | .paren l e => s!"P:{l}" :: encE e
+  | .assign l n e => s!"=:{l}:{encodeStr n}" :: encE e
+  | .plusassign l n e => s!"+:{l}:{encodeStr n}" :: encE e
+  | .empty => ["E"]
+def encI : Items → List String
+  | .nil => []
+  | .pos e r => "p" :: (encE e ++ encI r)
+  | .kw k v r => "k" :: (encE k ++ encE v ++ encI r)
+end
+
+def encodeTree (e : Expr) : String := ";".intercalate (encE e)
+
+def natList (f : String) : List Nat := (f.splitOn ",").filterMap (fun w => w.trimAscii.toString.toNat?)
+
+/-- `action,kind,line,col,eline,ecol,vflag,vline,vcol,veline,vecol` + tree -/
+def decodeWork (mt tree : String) : Option Work :=
+  match natList mt, decodeTree tree with
+  | [a, k, l, c, el, ec, vf, vl, vc, vel, vec], some e =>
+    let action := if a == 0 then Action.modify else if a == 1 then Action.rm else Action.add
+    let kind := if k == 0 then NodeKind.arrOrFunc
+      else if k == 1 then NodeKind.assignment (if vf == 1 then some ⟨vl, vc, vel, vec⟩ else none)
+      else NodeKind.other
+    some ⟨action, ⟨l, c, el, ec⟩, kind, e⟩
+  | _, _ => none
+
+def decodeWorks : List String → Option (List Work)
+  | [] => some []
+  | [_] => none
+  | m :: t :: rest => do
+    let w ← decodeWork m t
+    let ws ← decodeWorks rest
+    pure (w :: ws)
+
+def showErr : Err → String
+  | .indexError => "ERR:IndexError"
+
+def withTree (f : String) (k : Expr → String) : String :=
+  match decodeTree f with
+  | some e => if e.opsKnown then k e else "ERR:MesonBugException"
+  | none => "bad-tree"
+
+def handle (cmd : String) (fs : List String) : String :=
+  match cmd, fs with
+  | "echo", [t] => withTree t encodeTree
+  | "print", [t] => withTree t (fun e => encodeStr (astPrint e))
+  | "newdata", [t] => withTree t (fun e => encodeStr (newData e))
+  | "prec", [t] => withTree t (fun e => toString (precLevel e))
+  | "esc", [s] => encodeStr (escape (decodeStr s))
+  | "post", [s] => encodeStr (postProcess (decodeStr s))
+  | "strip", [s] => encodeStr (stripU (decodeStr s))
+  | "decode", [s] =>
+    match decodeEscapes (decodeStr s) with
+    | some v => "1 " ++ encodeStr v
+    | none => "unmodelled"
+  | "lexstr", [s] =>
+    match lexString (decodeStr s) with
+    | some v => "1 " ++ encodeStr v
+    | none => "0"
+  | "offsets", [s] => ",".intercalate ((lineOffsets (decodeStr s)).map toString)
+  | "lexoffsets", [s] => ",".intercalate ((lexLineOffsets (decodeStr s)).map toString)
+  | "apply", text :: nm :: nr :: works =>
+    match decodeWorks works with
+    | none => "bad-work"
+    | some ws =>
+      if ws.all (fun w => w.node.opsKnown) then
+        let m := tokNat nm; let r := tokNat nr
+        match applyChanges (decodeStr text) (ws.take m) ((ws.drop m).take r) (ws.drop (m + r)) with
+        | .ok out => encodeStr out
+        | .error e => showErr e
+      else "ERR:MesonBugException"
+  | "same", [u, cf, keys, a, b] =>
+    match decodeTree a, decodeTree b with
+    | some x, some y => boolStr (sameExcept (decodeStrList u) (decodeStrList cf) (decodeStrList keys) x y)
+    | _, _ => "bad-tree"
+  | "erase", [t] => withTree t (fun e => encodeTree e.erase)
+  | "reparse", [t] =>
+    -- parse (own token-level parser) the text the printer produces for `t`; answer the erased tree
+    withTree t (fun e =>
+      match parseText (astPrint e) with
+      | some p => "1 " ++ encodeTree p.erase
+      | none => "0")
+  | "parse", [s] =>
+    match parseText (decodeStr s) with
+    | some p => "1 " ++ encodeTree p.erase
+    | none => "0"
+  | _, _ => "bad-op"
 
 end Driver.Rewrite
